@@ -68,7 +68,7 @@ class LeanOut:
     def opd(self, o):
         if isinstance(o, tuple):
             if o[0] == "mem":
-                _, t, disp, base, index, scale = o
+                _, t, disp, base, index, scale = o[:6]     # a 7th field is an alias name: no run-time meaning
                 if t not in INT_TYPES and not t.startswith("blk") and not t.startswith("rblk"):
                     raise Unsupported("mem type " + t)
                 return f"m:{t.replace(':', '/')}:{disp & M64:x}:{base or '-'}:{index or '-'}:{scale}"
@@ -362,6 +362,49 @@ class C04Gen:
         self.stat("callee_var_alloca")
         return fn, "p2"
 
+    def var_alloca_block(self, reg, nreg, src, other, scratch):
+        """`nreg = 40..64` computed from `src`; one instruction directly in front of the alloca that a
+        careless "constant size" recognition could take for the size definition (an unrelated constant
+        move, a constant move into the size register — then the size IS constant —, a register move
+        into the size register, a move of the size register elsewhere); the alloca; stores over the
+        whole block.  Returns (instructions, instructions that read the block back into `scratch`)"""
+        r = self.r
+        v = r.below(5)
+        ins = [("and", nreg, src, 24), ("add", nreg, nreg, 40)]
+        if v == 0:
+            ins += [("mov", other, 0)]
+        elif v == 1:
+            ins += [("mov", nreg, r.choice([40, 48, 64]))]
+        elif v == 2:
+            ins += [("mov", other, nreg), ("add", other, other, 0), ("mov", nreg, other)]
+        elif v == 3:
+            ins += [("mov", other, nreg)]
+        else:
+            ins += [("mov", other, r.choice([1, 16, 4096]))]
+        self.stat(f"var_alloca_after_mov_{v}")
+        ins += [("alloca", reg, nreg)]
+        for k in range(0, 40, 8):
+            ins += [("mov", ("mem", "i64", k, reg, None, 1), r.choice([src, 0x0101010101010101 * (k + 1), -1]))]
+        ins += [("sub", other, nreg, 8), ("mov", ("mem", "i64", 0, reg, other, 1), 0x7e7e7e7e7e7e7e7e)]
+        back = []
+        for k in range(0, 40, 8):
+            back += [("xor", scratch, scratch, ("mem", "i64", k, reg, None, 1)), ("mul", scratch, scratch, 13)]
+        back += [("sub", other, nreg, 8), ("add", scratch, scratch, ("mem", "i64", 0, reg, other, 1))]
+        return ins, back
+
+    def h_alloca_var_first(self):
+        """callee whose FIRST alloca has a run-time size, directly preceded by a move; it calls a helper
+        with a constant top alloca and reads its own block back afterwards"""
+        fn = self.fname("avf")
+        ins, back = self.var_alloca_block("p", "n", "a", "q", "r")
+        hn, pn = self.h_alloca_top()
+        ins = [("mov", "r", 0)] + ins + [(self.r.choice(["call", "inline"]), pn, hn, "t", "b", "a")] + back + \
+              [("add", "r", "r", "t"), ("ret", "r")]
+        self.add(self.M, fn, "i64, i64:a, i64:b", ["n", "p", "q", "r", "t"], ins)
+        self.M.protos.add("p2: proto i64, i64:a, i64:b")
+        self.stat("callee_var_alloca_first")
+        return fn, "p2"
+
     def h_alloca_loop(self):
         """constant alloca after a label, executed in a loop (non-top alloca)"""
         fn = self.fname("al")
@@ -491,15 +534,21 @@ class C04Gen:
         r = self.r
         fn = self.fname("mid")
         ins = []
-        locs = ["acc", "r0", "r1", "r2", "t0", "t1", "cnt", "tal", "tal2", "va"]
+        locs = ["acc", "r0", "r1", "r2", "t0", "t1", "cnt", "tal", "tal2", "va", "va0", "vn", "vq", "vs"]
         regs = ["a", "b", "r0", "r1"]
-        own = r.below(3)      # 0: none, 1: top alloca, 2: two adjacent top allocas
+        own = r.below(4)      # 0: none, 1: top alloca, 2: two adjacent top allocas, 3: variable-size first alloca
+        vback = []
         ins += [("mov", "acc", 0), ("mov", "r0", "a"), ("xor", "r1", "b", r.choice(CONSTS)), ("mov", "r2", 1)]
         pre_call = None
         if self.o["kf_shapes"] and own and r.chance(1, 2):
             pre_call = True     # known finding: a call in front of the caller's top alloca
             hn, pn = self.h_alloca_top()
             ins += [("inline", pn, hn, "r2", "a", "b")]
+        if own == 3:
+            vi, vback = self.var_alloca_block("va0", "vn", "a", "vq", "vs")
+            ins += [("mov", "vs", 0)] + vi
+            self.stat("caller_var_alloca_first")
+            own = 0
         if own:
             ins += [("alloca", "tal", 48)]
             if own == 2:
@@ -511,7 +560,9 @@ class C04Gen:
         nsc = 1 + r.below(3)
         uses_ll = False
         for s in range(nsc):
-            k = r.below(14)
+            k = r.below(16)
+            if vback and s == 0:
+                k = r.choice([3, 4, 13, 14])     # the caller's variable block next to inlined constant ones
             loop = r.chance(1, 4)
             lab = f"{fn}_lp{s}"
             if loop:
@@ -564,6 +615,9 @@ class C04Gen:
             elif k == 11:
                 hn, pn = self.h_random()
                 ins += [(kind, pn, hn, "t0", a1, a2, ("d", 0.0))]
+            elif k in (13, 14):
+                hn, pn = self.h_alloca_var_first()
+                ins += [(kind, pn, hn, "t0", a1, a2)]
             elif k == 12 and self.o["aux"]:
                 hn, pn = self.h_aux()
                 ins += [(kind, pn, hn, "t0", a1, a2)]
@@ -586,6 +640,8 @@ class C04Gen:
             ins += [("and", "t1", "a", 24), ("add", "t1", "t1", 8), ("alloca", "va", "t1"),
                     ("mov", ("mem", "i64", 0, "va", None, 1), "acc"), ("add", "acc", "acc", ("mem", "i64", 0, "va", None, 1))]
             self.stat("caller_var_alloca")
+        if vback:
+            ins += vback + [("xor", "acc", "acc", "vs")]
         if own:
             for k in range(0, 48, 8):
                 ins += [("xor", "acc", "acc", ("mem", "i64", k, "tal", None, 1)), ("mul", "acc", "acc", 7)]
